@@ -4,6 +4,7 @@ CONSTANTS
   Aux <- MCAux
   NodeKinds <- MCNodeKinds
   CallSet <- MCCallSet
+  Twin <- MCTwin
   N = 2
   MaxCalls = 1
   SrcEnc = "none"
@@ -21,9 +22,14 @@ CONSTANTS
   WithNest = FALSE
   Nest2 = FALSE
   WithStream = TRUE
-  StreamLayouts = {"none","direct","indirect","array","chain"}
+  StreamLayouts = {"none","indirect","array","chain"}
   WithDangling = FALSE
   WithNullObj = FALSE
   WithScalarObj = TRUE
   CallOps = {"ref","obj"}
+  WithTwin = FALSE
+  CFIndirect = TRUE
+  PlainIdentity = TRUE
+  KeyByNumber = FALSE
+  CryptProbeDirectOnly = FALSE
 INVARIANTS Once Repeat Terminates NoPanic ErrorsOnlyUnsupported Shape Sharing IsoInv
